@@ -49,3 +49,54 @@ func TestDrive(t *testing.T) {
 		}
 	}
 }
+
+
+// TestKV runs key-value scenarios ($VERIF_SCN) against the real backends.
+func TestKV(t *testing.T) {
+	in, out := os.Getenv("VERIF_SCN"), os.Getenv("VERIF_OUT")
+	if in == "" || out == "" {
+		t.Skip("VERIF_SCN / VERIF_OUT not set")
+	}
+	work := os.Getenv("VERIF_WORK")
+	if work == "" {
+		work = os.TempDir()
+	}
+	skip, _ := strconv.Atoi(os.Getenv("VERIF_SKIP"))
+	f, err := os.Open(in)
+	if err != nil {
+		t.Fatal(err)
+	}
+	defer f.Close()
+	log, err := NewEventLog(out)
+	if err != nil {
+		t.Fatal(err)
+	}
+	defer log.Close()
+	sc := bufio.NewScanner(f)
+	sc.Buffer(make([]byte, 1<<20), 256<<20)
+	n := 0
+	for sc.Scan() {
+		n++
+		if n <= skip {
+			continue
+		}
+		var s KVScenario
+		if err := json.Unmarshal(sc.Bytes(), &s); err != nil {
+			t.Fatalf("scenario %d: %v", n, err)
+		}
+		if err := RunKV(&s, log, work); err != nil {
+			t.Fatalf("scenario %s: %v", s.ID, err)
+		}
+	}
+}
+
+
+// TestKVChild is the writer process of the cut / kill scenarios (C15): it performs one Set
+// under a file size limit, or kills itself at a chosen step of the write.
+func TestKVChild(t *testing.T) {
+	mode := os.Getenv("VERIF_CHILD")
+	if mode == "" {
+		t.Skip("not a child")
+	}
+	kvChild(mode)
+}
